@@ -233,6 +233,8 @@ class RArr:
                 return [rec(d, rest)]
             if isinstance(i, slice):
                 return [rec(x, rest) for x in d[i]]
+            if isinstance(i, RArr) and i.ndim == 1 and all(isinstance(v, int) for v in i.data):
+                return [rec(d[int(k)], rest) for k in i.data]
             if hasattr(i, "__len__") and not isinstance(i, (str, RArr)):
                 # a concrete boolean mask or index list along this axis
                 vals = list(i)
@@ -363,12 +365,39 @@ class RNP:
 
     @staticmethod
     def zeros(shape, dtype=None):
-        shape = (shape,) if isinstance(shape, int) else tuple(shape)
+        shape = (shape,) if isinstance(shape, int) else tuple(int(x) for x in shape)
         return RArr(_build(shape, lambda ix: CRat(0)), getattr(dtype, "name", dtype) or "float64")
 
     @staticmethod
-    def arange(n):
-        return RArr([int(i) for i in range(n)], "int64")
+    def arange(a, b=None):
+        a = int(a.data) if isinstance(a, RArr) else int(a)
+        if b is None:
+            return RArr([int(i) for i in range(a)], "int64")
+        return RArr([int(i) for i in range(a, int(b))], "int64")
+
+    @staticmethod
+    def stack(arrs, axis=0):
+        arrs = [x if isinstance(x, RArr) else RNP.array(x) for x in arrs]
+        if axis == 0:
+            return RArr([_map(lambda v: v, x.data) for x in arrs], arrs[0].dtype)
+        if axis in (1, -1) and arrs[0].ndim == 1:
+            return RArr([[x.data[i] for x in arrs] for i in range(len(arrs[0].data))], arrs[0].dtype)
+        raise Escape("rnp: stack along this axis")
+
+    @staticmethod
+    def cumsum(a, axis=None):
+        if axis not in (-2, a.ndim - 2) or a.ndim < 2:
+            raise Escape("rnp: cumsum along this axis")
+
+        def rec(d, depth):
+            if depth == a.ndim - 2:
+                out, acc = [], None
+                for row in d:
+                    acc = list(row) if acc is None else [x + y for x, y in zip(acc, row)]
+                    out.append(list(acc))
+                return out
+            return [rec(x, depth + 1) for x in d]
+        return RArr(rec(a.data, 0), a.dtype)
 
     @staticmethod
     def abs(a):
